@@ -29,7 +29,7 @@ REQUIRED = [
     "calls.Perm.occurrences_in", "calls.Perm.contains", "calls.Perm.avoids", "calls.Perm.avoids_set",
     "calls.Perm.__contains__", "calls.Perm.count_occurrences_of", "calls.Patt.count_occurrences_in",
     "calls.Patt.contained_in", "calls.Patt.avoided_by", "calls.Perm.occurrences_of",
-    "listing.exhausted", "listing.abandoned", "memo.checked", "memo.reused", "coloured.checked", "derived.objects", "long.patterns", "multi.same_object_mutated",
+    "listing.exhausted", "listing.abandoned", "memo.checked", "memo.reused", "coloured.checked", "derived.objects", "long.patterns", "multi.same_object_mutated", "history.shared_pattern_object",
 ]
 MIN_NONTRIVIAL = 200
 WATCHDOG = {"quick": 1800, "thorough": 4 * 3600}
@@ -61,9 +61,17 @@ def check_memo(p):
     tab = p._cached_pattern_details
     if tab is None or not C.is_perm(tuple(p)):
         return
+    want = C.pattern_details(tuple(p))
+    try:
+        shape_ok = len(tab) == len(want) and all(len(row) == 4 for row in tab)
+    except TypeError:
+        shape_ok = False
+    if not shape_ok:
+        # a private table organised differently is not a violation of anything: the invariant applies to the layout it knows
+        CTX.count("memo.other_layout_not_judged")
+        return
     CTX.count("memo.checked")
     CTX.ev()
-    want = C.pattern_details(tuple(p))
     if list(map(tuple, tab)) != want:
         report("pair", [enc(p), enc(p)], f"memoised search table of {tuple(p)} is {tab}, definition gives {want}")
 
@@ -343,6 +351,22 @@ def chk_long(ctx, k, seed):
     CTX.count("long.patterns")
 
 
+def chk_shared_pattern_object(ctx, p, t, first):
+    """history across pattern kinds: the SAME Perm object is the underlying pattern of a mesh / vincular / bivincular pattern
+    that is searched for first; the classical searches with that object afterwards are judged as always"""
+    from permuta import BivincularPatt, CovincularPatt, MeshPatt, VincularPatt
+
+    P, T = Perm(p), Perm(t)
+    k = len(P)
+    req = sorted(ctx.rng.sample(range(k + 1), ctx.rng.randint(1, min(2, k + 1))))
+    W = {"vincular": lambda: VincularPatt(P, req), "covincular": lambda: CovincularPatt(P, req),
+         "bivincular": lambda: BivincularPatt(P, req, req[:1]), "mesh": lambda: MeshPatt(P, [(x, 0) for x in req])}[first]()
+    list(W.occurrences_in(T)), T.contains(W), W in T
+    _pair(P, T, full=True)
+    _pair(P, Perm(list(t) + [len(t)]), full=False)
+    CTX.count("history.shared_pattern_object")
+
+
 def chk_multi_in(ctx, p, ts):
     P, TS = Perm(p), [Perm(t) for t in ts]
     P.contained_in(*TS)
@@ -453,7 +477,7 @@ def chk_derived(ctx, p, t, how):
 
 DERIVED_HOW = ["to_standard", "inverse_twice", "rotate4", "unrank", "remove_insert", "from_string", "compose_id", "pickle", "copy", "deepcopy", "subclass"]
 
-CHECKS = {"long": chk_long, "multi_mutated": chk_multi_mutated, "derived": chk_derived, "pair": chk_pair, "multi": chk_multi, "multi_in": chk_multi_in, "colour": chk_colour, "history": chk_history}
+CHECKS = {"shared": chk_shared_pattern_object, "long": chk_long, "multi_mutated": chk_multi_mutated, "derived": chk_derived, "pair": chk_pair, "multi": chk_multi, "multi_in": chk_multi_in, "colour": chk_colour, "history": chk_history}
 
 
 # ---- workload ----------------------------------------------------------------------------
@@ -559,13 +583,16 @@ def run_rand(ctx, spec):
             chk_multi_in(ctx, p, ts)
         if rng.random() < 0.25:
             chk_derived(ctx, p, t, rng.choice(DERIVED_HOW))
+        if rng.random() < 0.2 and k >= 1:
+            chk_shared_pattern_object(ctx, p, t, rng.choice(["vincular", "covincular", "bivincular", "mesh"]))
     for _ in range(spec.get("long", 0)):
         chk_long(ctx, rng.randint(500, 640), rng.randrange(10 ** 9))
     for _ in range(spec["col"]):
         k, n = rng.randint(1, 4), rng.randint(1, 9)
         p, t = planted(rng, k, n)
         ncol = rng.choice([1, 2, 2, 3])
-        palette = rng.choice([[0, 1, 2], [None, 0, 1], ["a", None, "b"], [(), (0,), None], [False, None, 0.5]])[: max(ncol, 2)]
+        palette = rng.choice([[0, 1, 2], [None, 0, 1], ["a", None, "b"], [(), (0,), None], [False, None, 0.5],
+                              [[0, 0], [0, 1], [1, 1]], [{"x": 1}, {"x": 2}, {}], [{1}, {2}, set()]])[: max(ncol, 2)]
         pc = [rng.choice(palette) for _ in range(k)]
         tc = [rng.choice(palette) for _ in range(n)]
         chk_colour(ctx, p, t, pc, tc)
